@@ -1634,7 +1634,13 @@ fn c04_run(case: &mut Case, rng: &mut Rng) {
         case.ctl("q h1 countof h0");
         match workload {
             0 => case.ctl("q h1 tcp_cpoll s2"),
-            1 | 2 => case.ctl("q h1 tcp_read s2 8"),
+            1 => {
+                case.ctl("q h1 tcp_read s2 8");
+                // the peer keeps writing: with a small window it has no credit left (the victim never read)
+                // and must learn from the reset that the stream is gone
+                if case.idx % 2 == 0 { case.ctl("q h1 tcp_pwrite s2 7a7b") } else { case.ctl("q h1 tcp_write s2 7a7b") };
+            }
+            2 => case.ctl("q h1 tcp_read s2 8"),
             4 => {
                 case.ctl("q h1 tcp_peek s2 8");
                 case.ctl("q h1 tcp_read s2 8");
@@ -1684,7 +1690,11 @@ fn c04_run(case: &mut Case, rng: &mut Rng) {
         case.ctl("q h0 tcp_accept s1 s9");
         match workload {
             0 => case.ctl("q h1 tcp_cpoll s2"),
-            1 | 2 => case.ctl("q h1 tcp_read s2 8"),
+            1 => {
+                case.ctl("q h1 tcp_read s2 8");
+                if case.idx % 2 == 0 { case.ctl("q h1 tcp_pwrite s2 7c7d") } else { case.ctl("q h1 tcp_write s2 7c7d") };
+            }
+            2 => case.ctl("q h1 tcp_read s2 8"),
             4 => {
                 case.ctl("q h1 tcp_peek s2 8");
                 case.ctl("q h1 tcp_read s2 8");
@@ -1729,6 +1739,13 @@ fn c04_run(case: &mut Case, rng: &mut Rng) {
         case.ctl("isrunning h2");
         case.ctl("q h2 count");
         case.ctl("step");
+    }
+    if case.idx % 7 == 3 {
+        // blocked-writer probe on a private Sim (see `xprobe_bw`)
+        let cap = 1 + (case.idx / 7) % 3;
+        let mode = if (case.idx / 21) % 2 == 0 { "crash" } else { "drop" };
+        let dir = if (case.idx / 42) % 2 == 0 { "c2s" } else { "s2c" };
+        case.ctl(&format!("xprobe_bw {cap} {mode} {dir}"));
     }
     case.ctl("mark done");
 }
